@@ -82,8 +82,11 @@ def work(tasks, idx):
         else:  # CBOR helpers on arbitrary bytes
             _, seed, n = t
             rng = common.Rng(seed)
+            from .C11 import exotic_cbor
             for _ in range(n):
-                b = rng.bytes_(rng.randrange(0, 24))
+                # random bytes, and CBOR that the decoder handles through special paths (semantic tags over wrongly typed
+                # content, bignums, huge lengths, ...): whatever the helper refuses, it refuses with the library's exception
+                b = rng.bytes_(rng.randrange(0, 24)) if rng.random() < 0.4 else exotic_cbor(rng)
                 code = corr.code_outcome(lambda: encode_cbor(parse_cbor(b)), lambda r: r.hex())
                 res.evaluations += 1
                 tie.check({"op": "cbor_roundtrip", "b": b.hex()}, code, label=["cbor"])
